@@ -109,11 +109,19 @@ func (c14) Gen(t *Tape, tier string, run int) interface{} {
 	}
 	c := &c14Case{Kind: kinds[t.Draw("work", 3)], Stats: t.Chance("work", 1, 3), Cap: 1 + t.Draw("work", 4)}
 	if t.Bool("work") {
-		c.Clients = [][]COp{genCOps(t, 3+t.Draw("work", 28), false)}
+		n := 3 + t.Draw("work", 28)
+		if tier == "thorough" && t.Chance("work", 1, 4) {
+			n = 30 + t.Draw("work", 70) // deeper sequential histories in the thorough tier
+		}
+		c.Clients = [][]COp{genCOps(t, n, false)}
 	} else {
 		n := 2 + t.Draw("work", 3)
 		for i := 0; i < n; i++ {
-			c.Clients = append(c.Clients, genCOps(t, 1+t.Draw("work", 8), true))
+			ops := 1 + t.Draw("work", 8)
+			if tier == "thorough" && n <= 3 && t.Chance("work", 1, 4) {
+				ops = 8 + t.Draw("work", 5) // longer concurrent histories (porcupine stays tractable for <=3 clients)
+			}
+			c.Clients = append(c.Clients, genCOps(t, ops, true))
 		}
 	}
 	return c
